@@ -33,9 +33,10 @@ CHECKS = {
             "every constructor call of a dtype-taking class carries a dtype derived from an operand, never torch's "
             "default; (V) dtype conversions of recorded arguments sit behind a floating-point test so index / mask "
             "tensors are never cast; (N) optional device/dtype are None-tested; (P,P2,G) dtype/device property "
-            "overrides, to()/type() overrides of dtype-keyword classes, requires_grad only on floating tensors. Each is "
-            "a necessary condition of the property. NOT decided: equality of dense values after a conversion, storage "
-            "disjointness of clones (covered by C13's engine when built).",
+            "overrides, to()/type() overrides of dtype-keyword classes, requires_grad only on floating tensors; (C) the "
+            "ownership engine proves that the operator returned by clone() holds no tensor object and no storage of "
+            "the original. Each is "
+            "a necessary condition of the property. NOT decided: equality of dense values after a conversion.",
             TRUST, "DESIGN.md section 3, C14"),
     "C15": (True,
             "dispatch-table reconstruction from decorators x MRO resolution (table agreement) + term rewriting of the "
